@@ -164,11 +164,17 @@ def to_triples(d, properties=True, lnk=True):
     idmap = {}
     quantifiers = {node.id for node in d.nodes
                    if d.is_quantifier(node.id)}
+    # a variable spelled like a predicate of the graph would make PENMAN
+    # read that node's instance triple as an edge to the variable
+    predicates = {node.predicate for node in d.nodes}
     for i, node in enumerate(d.nodes, 1):
         if node.id in quantifiers:
-            idmap[node.id] = 'q' + str(i)
+            var = 'q' + str(i)
         else:
-            idmap[node.id] = '{}{}'.format(node.type or '_', i)
+            var = '{}{}'.format(node.type or '_', i)
+        while var in predicates:
+            var += '_'
+        idmap[node.id] = var
     # sort the nodes so the top node appears first
     nodes = sorted(d.nodes, key=lambda n: d.top != n.id)
     triples = []
